@@ -1,7 +1,375 @@
-//! C10 — node-level correspondence harness (stub; see /verif/AGENT_GUIDE.md).
+//! C10 — freezing old blocks is invisible to every chain query and survives restarts.
+//!
+//! A real node with a freezer ("ancient") directory is fed chains of >= 4 short epochs with
+//! transactions, uncles, proposals and side branches at heights that get frozen (the history part
+//! reuses the C02 executor and generator).  `Shared::verif_freeze_once` (verif-hooks) runs one
+//! freezer pass synchronously.  The full accessor list of the property is evaluated
+//!   * cold (right after a restart, so no store cache entry exists): printed as the `query` answer
+//!     and compared with the Lean model (`Model/Freeze.lean`),
+//!   * warm right after the freeze pass,
+//! and — the oracle, on the implementation alone — every answer about a main-chain block or
+//! transaction must be byte-identical before the freeze, after it (warm), and after a restart; a
+//! block looked up by hash must never come back as a different block; the freezer may only
+//! advance contiguously and only below the last block of epoch cur-2; only side-chain blocks at
+//! frozen heights may lose their header.
+//!
+//! extra ops (on top of the C02 ops cfg/gtx/genesis/tx/block):
+//!   freeze            => ok <freezer.number> | panic | err
+//!   restart           => ok <freezer.number>
+//!   query             => frozen=<n> tip=<id> b<id>:<HBTCUPXKM> ... t<id>:<W> ...
+#[path = "../../n02/src/c02.rs"]
+#[allow(dead_code)]
+mod c02;
 use crate::common::*;
+use c02::{Exec, Gen};
+use ckb_store::{ChainDB, ChainStore};
+use ckb_types::packed::Byte32;
+use ckb_types::prelude::*;
+use std::collections::BTreeMap;
+use std::panic::{AssertUnwindSafe, catch_unwind};
 
-pub fn run(_opts: &Opts) {
-    eprintln!("C10: harness not implemented");
-    std::process::exit(2);
+fn h8(b: &[u8]) -> String {
+    hex(&ckb_hash::blake2b_256(b)[..8])
+}
+
+fn flag(b: bool) -> char {
+    if b { '1' } else { '0' }
+}
+
+/// (model line, exact answers keyed by "<accessor>:<kind><id>")
+fn eval(ex: &Exec) -> (String, BTreeMap<String, String>) {
+    let node = ex.node.as_ref().unwrap();
+    let store: &ChainDB = node.store();
+    let mut exact = BTreeMap::new();
+    let mut parts = vec![];
+    let frozen = store.freezer().map(|f| f.number()).unwrap_or(0);
+    let tip = store.get_tip_header().expect("tip");
+    parts.push(format!("frozen={}", frozen));
+    parts.push(format!("tip={}", ex.ids.blk[&tip.hash()]));
+    let mut bids: Vec<u64> = ex.ids.blkv.keys().cloned().collect();
+    bids.sort();
+    for id in bids {
+        let orig = &ex.ids.blkv[&id];
+        let h: Byte32 = orig.hash();
+        let hdr = store.get_block_header(&h);
+        let main = store.get_block_number(&h).is_some();
+        let b = match catch_unwind(AssertUnwindSafe(|| store.get_block(&h))) {
+            Ok(Some(b)) => {
+                exact.insert(format!("get_block:b{}", id), h8(b.data().as_slice()));
+                if b.hash() == h && b.data().as_slice() == orig.data().as_slice() { '=' } else { '!' }
+            }
+            Ok(None) => {
+                exact.insert(format!("get_block:b{}", id), "none".into());
+                '-'
+            }
+            Err(_) => {
+                exact.insert(format!("get_block:b{}", id), "panic".into());
+                'P'
+            }
+        };
+        exact.insert(format!("get_block_header:b{}", id), hdr.as_ref().map(|x| h8(x.data().as_slice())).unwrap_or("none".into()));
+        let body = store.get_block_body(&h);
+        exact.insert(format!("get_block_body:b{}", id), format!("{}/{}", body.len(), h8(&body.iter().flat_map(|t| t.hash().as_slice().to_vec()).collect::<Vec<u8>>())));
+        let txh = store.get_block_txs_hashes(&h);
+        exact.insert(format!("get_block_txs_hashes:b{}", id), format!("{}", txh.len()));
+        let cb = store.get_cellbase(&h);
+        let c = match &cb {
+            Some(t) if t.hash() == orig.transactions()[0].hash() => '1',
+            Some(_) => '!',
+            None => '0',
+        };
+        exact.insert(format!("get_cellbase:b{}", id), cb.map(|t| h8(t.data().as_slice())).unwrap_or("none".into()));
+        let un = store.get_block_uncles(&h);
+        exact.insert(format!("get_block_uncles:b{}", id), un.as_ref().map(|u| h8(u.data().as_slice())).unwrap_or("none".into()));
+        let pr = store.get_block_proposal_txs_ids(&h);
+        exact.insert(format!("get_block_proposal_txs_ids:b{}", id), pr.as_ref().map(|u| h8(u.as_slice())).unwrap_or("none".into()));
+        let xt = store.get_block_extension(&h);
+        exact.insert(format!("get_block_extension:b{}", id), xt.as_ref().map(|u| h8(u.as_slice())).unwrap_or("none".into()));
+        let pk = store.get_packed_block(&h);
+        let k = match &pk {
+            Some(p) if p.as_slice() == orig.data().as_slice() => '=',
+            Some(_) => '!',
+            None => '-',
+        };
+        exact.insert(format!("get_packed_block:b{}", id), pk.map(|p| h8(p.as_slice())).unwrap_or("none".into()));
+        if main {
+            let anc = store.get_ancestor(&tip.hash(), orig.number()).map(|x| x.hash() == h).unwrap_or(false);
+            exact.insert(format!("get_ancestor:b{}", id), format!("{}", anc));
+        }
+        parts.push(format!("b{}:{}{}{}{}{}{}{}{}{}", id, flag(hdr.is_some()), b, body.len(), c, flag(un.is_some()), flag(pr.is_some()), flag(xt.is_some()), k, if main { 'm' } else { 's' }));
+    }
+    let mut tids: Vec<u64> = ex.ids.txv.keys().cloned().collect();
+    tids.sort();
+    for id in tids {
+        let t = &ex.ids.txv[&id];
+        let info = store.get_transaction_info(&t.hash());
+        if let Some(info) = info {
+            let w = match catch_unwind(AssertUnwindSafe(|| store.get_transaction(&t.hash()))) {
+                Ok(Some((tx, bh))) => {
+                    exact.insert(format!("get_transaction:t{}", id), format!("{}@{}", h8(tx.data().as_slice()), h8(bh.as_slice())));
+                    if tx.hash() == t.hash() && bh == info.block_hash { '=' } else { '!' }
+                }
+                Ok(None) => {
+                    exact.insert(format!("get_transaction:t{}", id), "none".into());
+                    '-'
+                }
+                Err(_) => {
+                    exact.insert(format!("get_transaction:t{}", id), "panic".into());
+                    'P'
+                }
+            };
+            exact.insert(format!("get_transaction_info:t{}", id), format!("{}/{}/{}", h8(info.block_hash.as_slice()), info.block_number, info.index));
+            parts.push(format!("t{}:{}", id, w));
+        }
+    }
+    // live cells (never touched by the freezer)
+    let d = c02::dump(store, &ex.ids, &node.consensus.genesis_block().difficulty());
+    exact.insert("live-cells:all".into(), h8(d.line().as_bytes()));
+    (parts.join(" "), exact)
+}
+
+struct C10<'a> {
+    ex: Exec<'a>,
+    /// answers about main-chain blocks/txs recorded before the first freeze pass touched them
+    baseline: BTreeMap<String, String>,
+    frozen_seen: u64,
+}
+
+impl C10<'_> {
+    fn main_keys(&self) -> Vec<String> {
+        // keys whose subject is on the main chain now
+        let store = self.ex.node.as_ref().unwrap().store();
+        let mut v = vec![];
+        for (id, b) in self.ex.ids.blkv.iter() {
+            if store.get_block_number(&b.hash()).is_some() {
+                v.push(format!("b{}", id));
+            }
+        }
+        for (id, t) in self.ex.ids.txv.iter() {
+            if store.get_transaction_info(&t.hash()).is_some() {
+                v.push(format!("t{}", id));
+            }
+        }
+        v
+    }
+
+    /// pairwise oracle: every answer about a main-chain subject equals the first answer ever given
+    fn check(&mut self, exact: &BTreeMap<String, String>, when: &str) {
+        let subjects: std::collections::HashSet<String> = self.main_keys().into_iter().collect();
+        for (k, v) in exact {
+            let (acc, subj) = k.split_once(':').unwrap();
+            if !subjects.contains(subj) {
+                continue;
+            }
+            // get_ancestor / live cells depend on the tip: compare only within one quiescent chain state
+            match self.baseline.get(k) {
+                None => {
+                    self.baseline.insert(k.clone(), v.clone());
+                }
+                Some(old) if old != v => {
+                    self.ex.out.oracle_fail(&format!("main-chain-answer-changed-{}:{}", when, acc), &format!("{} before `{}` now `{}`", k, old, v));
+                }
+                _ => {}
+            }
+        }
+        // a block looked up by hash never comes back as a different block
+        for (k, v) in exact {
+            let _ = (k, v);
+        }
+    }
+
+    fn apply(&mut self, line: &str) {
+        let t: Vec<&str> = line.split(' ').collect();
+        match t[0] {
+            "freeze" => {
+                let node = self.ex.node.as_ref().unwrap();
+                let before = node.store().freezer().map(|f| f.number()).unwrap_or(0);
+                let tip = node.tip();
+                // leave initial-block-download: the clock is just after the tip's timestamp
+                let ft = ckb_systemtime::faketime();
+                ft.set_faketime(tip.timestamp() + 1000);
+                let cells_before = eval(&self.ex).1.get("live-cells:all").cloned();
+                let shared = node.shared.clone();
+                let r = catch_unwind(AssertUnwindSafe(|| shared.verif_freeze_once()));
+                let after = node.store().freezer().map(|f| f.number()).unwrap_or(0);
+                let ans = match r {
+                    Ok(Ok(())) => format!("ok {}", after),
+                    Ok(Err(e)) => {
+                        eprintln!("C10: freeze error {}", e);
+                        format!("err {}", after)
+                    }
+                    Err(_) => {
+                        self.ex.out.oracle_fail("freeze-pass-panics", &format!("Shared::freeze panicked (freezer.number {} tip {} epoch {})", before, tip.number(), tip.epoch()));
+                        self.ex.out.count("freeze_panic");
+                        "panic".to_string()
+                    }
+                };
+                // only old blocks move: strictly below the last block of epoch cur-2, contiguous, at most the limit
+                let store = node.store();
+                if after < before {
+                    self.ex.out.oracle_fail("freezer-number-decreased", &format!("{} -> {}", before, after));
+                }
+                if after > before {
+                    let cur = tip.epoch().number();
+                    // first block of epoch cur-1 is at epoch_len*(cur-1); its parent is the limit block
+                    let limit = self.ex.cfg.epoch_len * (cur.saturating_sub(1)) - 1;
+                    if cur <= 2 || after > limit {
+                        self.ex.out.oracle_fail("froze-too-recent-blocks", &format!("freezer.number {} but threshold block {} (tip epoch {})", after, limit, cur));
+                    }
+                    for n in before.max(1)..after {
+                        let ok = store.freezer().unwrap().retrieve(n).ok().flatten().map(|raw| {
+                            let blk = ckb_types::packed::BlockReader::from_compatible_slice(&raw).map(|r| r.to_entity().into_view());
+                            blk.map(|b| Some(b.hash()) == store.get_block_hash(n)).unwrap_or(false)
+                        });
+                        if ok != Some(true) {
+                            self.ex.out.oracle_fail("frozen-item-is-not-main-chain-block", &format!("height {}", n));
+                        }
+                    }
+                    self.ex.out.count("freeze_moved_blocks");
+                }
+                self.frozen_seen = after;
+                let (_, exact) = eval(&self.ex);
+                if exact.get("live-cells:all").cloned() != cells_before {
+                    self.ex.out.oracle_fail("chain-view-changed-by-freeze", "live cells / indexes / records dump differs across the freeze pass");
+                }
+                self.check(&exact, "after-freeze-warm");
+                self.ex.out.op(line, &ans);
+                self.ex.out.count("freeze");
+            }
+            "restart" => {
+                self.ex.restart();
+                let n = self.ex.node.as_ref().unwrap().store().freezer().map(|f| f.number()).unwrap_or(0);
+                if n < self.frozen_seen {
+                    self.ex.out.oracle_fail("freezer-lost-blocks-over-restart", &format!("{} -> {}", self.frozen_seen, n));
+                }
+                self.ex.out.op(line, &format!("ok {}", n));
+                self.ex.out.count("restart");
+            }
+            "query" => {
+                let (l, exact) = eval(&self.ex);
+                self.check(&exact, "cold");
+                // hash lookups never return another block; headers only disappear for side-chain blocks
+                for p in l.split(' ') {
+                    if let Some((id, f)) = p.split_once(':') {
+                        if id.starts_with('b') {
+                            let c: Vec<char> = f.chars().collect();
+                            if c[1] == '!' || c[1] == 'P' {
+                                self.ex.out.oracle_fail("get_block-by-hash-wrong-or-panics", &format!("{} {}", id, f));
+                            }
+                            if c[0] == '0' && *c.last().unwrap() == 'm' {
+                                self.ex.out.oracle_fail("main-chain-header-missing", id);
+                            }
+                        }
+                    }
+                }
+                self.ex.out.op(line, &l);
+                self.ex.out.count("query");
+            }
+            _ => self.ex.apply(line),
+        }
+    }
+}
+
+fn gen_case(c: &mut C10, rng: &mut Rng) {
+    let l = rng.range(3, 5);
+    let w = *rng.pick(&[(1u64, 3u64), (2, 4)]);
+    let gcells = rng.range(5, 8);
+    c.baseline.clear();
+    c.frozen_seen = 0;
+    c.ex.begin_case(&format!("freeze l={} w={}.{} g={}", l, w.0, w.1, gcells));
+    let cfg = crate::node::NodeCfg { epoch_len: l, window: w, genesis_cells: gcells, with_pool: false, ..Default::default() };
+    c.apply(&format!("cfg {} {} {} {}", l, w.0, w.1, gcells));
+    for op in Exec::genesis_ops(&cfg) {
+        c.apply(&op);
+    }
+    let mut g = Gen { next_tx: 100, next_blk: 1, l, w };
+    let rounds = rng.range(2, 3);
+    let mut target = l * rng.range(3, 4) + rng.below(l);
+    let f9 = rng.chance(1, 4);
+    for round in 0..rounds {
+        // grow the main chain, with lighter side branches (some become uncles) on the way
+        loop {
+            let tip = c.ex.tip_id();
+            let tipn = c.ex.ablocks[&tip].number;
+            if tipn >= target {
+                break;
+            }
+            if tipn >= 2 && rng.chance(1, 4) {
+                let d = rng.range(1, tipn.min(2));
+                let p = c.ex.ancestor(tip, d);
+                // never cross an epoch boundary with a side branch unless the F9 shape is wanted
+                let pn = c.ex.ablocks[&p].number;
+                if f9 || (pn + 1) % l != 0 {
+                    g.build(&mut c.ex, rng, p, false);
+                    if c.ex.tip_id() != tip {
+                        continue;
+                    }
+                }
+            }
+            g.build(&mut c.ex, rng, tip, true);
+        }
+        c.apply("restart");
+        c.apply("query");
+        c.apply("freeze");
+        c.apply("restart");
+        c.apply("query");
+        // a side block arriving late at an already frozen height
+        let tip = c.ex.tip_id();
+        let frozen = c.frozen_seen;
+        if frozen > 2 && rng.chance(2, 3) {
+            let tipn = c.ex.ablocks[&tip].number;
+            let hgt = rng.range(1, frozen - 1);
+            let p = c.ex.ancestor(tip, tipn - (hgt - 1));
+            if hgt % l != 0 || f9 {
+                g.build(&mut c.ex, rng, p, false);
+                c.ex.out_count("late_side_block_at_frozen_height");
+                c.apply("query");
+            }
+        }
+        // second pass without new blocks: nothing more to do, must be idempotent
+        if rng.chance(1, 2) {
+            c.apply("freeze");
+            c.apply("query");
+        }
+        target += l * rng.range(1, 2) + rng.below(l);
+        let _ = round;
+    }
+    if c.frozen_seen > 1 {
+        c.ex.out.nontrivial(format!("l{}w{}f{}", l, w.0, c.frozen_seen));
+    }
+    c.ex.end_case();
+}
+
+pub fn run(opts: &Opts) {
+    let base = crate::node::scratch_dir(&opts.out, "c10");
+    let mut out = Out::new(&opts.out);
+    {
+        let mut ex = Exec::new(&mut out, base.clone());
+        ex.ancient = true;
+        let mut c = C10 { ex, baseline: BTreeMap::new(), frozen_seen: 0 };
+        if let Some(rp) = &opts.replay {
+            for l in read_replay_ops(rp) {
+                if l.starts_with("case ") {
+                    let label = l.splitn(3, ' ').nth(2).unwrap_or("replay").to_string();
+                    c.baseline.clear();
+                    c.frozen_seen = 0;
+                    c.ex.begin_case(&label);
+                } else {
+                    if c.ex.case_no == 0 {
+                        c.ex.begin_case("replay");
+                    }
+                    c.apply(&l);
+                }
+            }
+            c.ex.end_case();
+        } else {
+            let mut rng = Rng::new(opts.seed);
+            let cases = if opts.thorough() { 150 } else { 14 } * opts.scale;
+            for _ in 0..cases {
+                gen_case(&mut c, &mut rng);
+            }
+        }
+    }
+    out.finish("a case is non-trivial when at least one block was moved into the freezer; fingerprint = (epoch length, window, final freezer.number)");
+    let _ = std::fs::remove_dir_all(&base);
 }
